@@ -48,7 +48,7 @@ type Report struct {
 }
 
 func NewReport(prop, tier string, w *World) *Report {
-	return &Report{Property: prop, Tier: tier, W: w, start: time.Now()}
+	return &Report{Property: prop, Tier: tier, W: w, start: procStart}
 }
 
 // Rule sets the current rule id / engine label for subsequent obligations.
